@@ -180,3 +180,17 @@ prop(
                  "index files larger than 17-18 bits are not created in checks; the entry theorems cover 16..49"],
     explanation="entry packing and key recovery proved for all index sizes; growth = no logical change at pipeline level; correspondence on page-overflow histories",
 )
+
+prop(
+    id="C20", module="Properties.C20", vfile="Properties/C20.v", level="proof", subcmd="c20",
+    theorems=["C20_content_preserved", "C20_key_recovered"],
+    counts={"quick": 480, "thorough": 20000, "search": 3200},
+    rule="source databases of 1-3 hash columns (preimage / counted / lz4 / uniform keys), 2-8 keys per column, value lengths {0, 1-300, 4000-9000, "
+         "33000-70000 (multipart)}, counts 1-4 on counted columns; destination options keep the hashing scheme and change the other flags in 3 of 4 columns; "
+         "forced migration of a third of the columns; in-place overwrite in a quarter of the cases; the real parity_db::migrate is run, then every key of the "
+         "destination is read, counted destinations are iterated for the counts, and the source is re-read when overwrite was not requested. "
+         "Non-trivial: at least one present key with count > 1",
+    assumptions=["sources are drained (one index generation) before migrating: migration of a source with a pending index growth is not exercised",
+                 "btree columns cannot be migrated (the code refuses)"],
+    explanation="migration as a fold of count-many Sets per source entry into the destination's column semantics; key reconstruction from C09's key recovery",
+)
